@@ -990,12 +990,14 @@ class Engine:
 
             # apply updates based on process times in self.front
             if full_step == math.inf:
-                # no processes ran, jump to next process
-                next_event = end_time
-                for path in self.front.keys():
-                    if self.front[path]['time'] < next_event:
-                        next_event = self.front[path]['time']
-                self.global_time = next_event
+                # every process was polled and none met its update
+                # condition, and no update is in flight: nothing can
+                # change before end_time
+                self.global_time = end_time
+
+                # advance all quiet processes to current time
+                for quiet in quiet_paths:
+                    self.front[quiet] = empty_front(self.global_time)
 
             elif self.global_time + full_step <= end_time:
                 # at least one process ran within the interval
@@ -1038,6 +1040,10 @@ class Engine:
             else:
                 # all processes have run past the interval
                 self.global_time = end_time
+
+                # advance all quiet processes to current time
+                for quiet in quiet_paths:
+                    self.front[quiet] = empty_front(self.global_time)
 
             if force_complete and self.global_time == end_time:
                 force_complete = False
